@@ -407,6 +407,28 @@ struct ViewModel {
     h: u32,
 }
 
+/// True if the path fails at its last hop only because that hop's range is
+/// reversed (start beyond end on some axis) while all four bounds lie inside
+/// the view it is applied to.
+fn reversed_in_bounds_hop(st: &Store, path: &[Form]) -> bool {
+    let (w, h, _) = st.root_dims();
+    let (mut cw, mut ch) = (w, h);
+    for (k, p) in path.iter().enumerate() {
+        match p.in_bounds(cw, ch) {
+            Some((l, t, r, b)) => {
+                cw = r - l;
+                ch = b - t;
+            }
+            None => {
+                let Some((l, t, r, b)) = p.resolve(cw, ch) else { return false };
+                let inside = l <= cw as u64 && r <= cw as u64 && t <= ch as u64 && b <= ch as u64;
+                return k + 1 == path.len() && inside && (l > r || t > b);
+            }
+        }
+    }
+    false
+}
+
 fn model_view(st: &Store, path: &[Form]) -> Option<ViewModel> {
     let (w, h, stride) = st.root_dims();
     let mut cells: Vec<Vec<usize>> = (0..h).map(|y| (0..w).map(|x| (y * stride + x) as usize).collect()).collect();
@@ -492,6 +514,32 @@ impl Hist {
             rep.violation(sig, msg, jcase(&root, path, op));
             false
         };
+        if vm.is_none() && reversed_in_bounds_hop(&self.st, path) {
+            // A range whose start lies beyond its end but whose bounds all lie
+            // inside the view is not "an access outside the view's bounds":
+            // the statement does not say it must panic. Accepted: a panic, or
+            // an empty view (no cell addressed); either way nothing is written.
+            rep.count("reversed_in_bounds_slicing(panic or empty view accepted)");
+            let ro = with_ro(&self.st, path, &mut |v: &Slice2<u64>| v.dims());
+            if let Ok((w, h)) = ro {
+                if w != 0 && h != 0 {
+                    return fail(rep, "buf.reversed_slice_not_empty", format!("slice() with a reversed in-bounds range returned a {w}x{h} view"));
+                }
+            }
+            if let Ok(o) = &got {
+                let empty = match o {
+                    Obs::Shape(w, h, e, _, _) => (*w == 0 || *h == 0) && *e,
+                    Obs::Val(v) => v.is_none(),
+                    Obs::Rows(r) => r.iter().all(|x| x.is_empty()),
+                    Obs::Flat(f) => f.is_empty(),
+                    _ => true,
+                };
+                if !empty {
+                    return fail(rep, "buf.reversed_slice_not_empty", format!("an operation on a view sliced with a reversed in-bounds range observed {o:?}"));
+                }
+            }
+            return self.store_check(rep, &root, path, op);
+        }
         let Some(vm) = vm else {
             rep.count("expected_panics.slice_out_of_bounds");
             // the immutable slicing path must reject it as well
@@ -814,7 +862,8 @@ fn exhaustive_small(rep: &mut Report, w: u32, h: u32, r1: usize, rng: &mut Rng) 
             }
         }
     }
-    // out-of-bounds and reversed slicings must panic
+    // out-of-bounds slicings must panic; reversed in-bounds ones panic or
+    // yield an empty view (see step)
     let mut bads = vec![
         Form::Excl(0, 0, w1 + 1, h1),
         Form::Excl(0, 0, w1, h1 + 1),
